@@ -50,6 +50,8 @@ class Gen:
         self.sub_bodies = {}
         self.seq_ifs = 0
         self.lit_addrs = self.r.sample(["A1", "A2", "A3", "A4", "A5"], self.r.randint(1, 3))
+        # half of the programs revisit ONE address field most of the time, so that several checks meet on it
+        self.focus_addr = self.r.choice(ADDR_FIELDS) if self.r.random() < self.p.get("focus_addr", 0.5) else None
         if self.r.random() < self.p.get("feesink", 0.08):
             # the valid, non-zero address (bytes ..02540be400) that tealer's constants name ZERO_ADDRESS
             self.lit_addrs.append("FEESINK")
@@ -84,8 +86,35 @@ class Gen:
         r = self.r
         if field == "GroupSize":
             return [("global", "GroupSize")], ("global",)
+        if getattr(self, "force_abs", None) is not None and field != "GroupIndex":
+            i = self.force_abs
+            if self.chance(0.5):
+                return [("gtxn", i, field)], ("abs", i)
+            return self.int_ins(i) + [("gtxns", field)], ("abs", i)
         if allow_other and self.chance(self.p["gtxn"]) and field != "GroupIndex":
-            style = r.choice(["gtxn", "gtxns_abs", "rel+", "rel+c", "rel-", "crel-"])
+            style = r.choice(["gtxn", "gtxns_abs", "rel+", "rel+c", "rel-", "crel-", "opaque_idx"])
+            if style == "opaque_idx" and not self.p.get("opaque_index", True):
+                style = "gtxns_abs"
+            if style == "opaque_idx":
+                # index arithmetic that is none of the recognised forms: the member read is known only at run time
+                self.features.add("gtxns_opaque_index")
+                a, b = r.choice([(0, 0), (0, 1), (1, 0), (1, 1), (2, 1), (1, 2)])
+                shape = r.choice(["c+c", "c-c", "c+load", "load+c", "c+field", "field+c", "size-c"])
+                if shape == "c+c":
+                    ix = self.int_ins(a) + self.int_ins(b) + [("+",)]
+                elif shape == "c-c":
+                    ix = self.int_ins(a + b) + self.int_ins(b) + [("-",)]
+                elif shape == "c+load":
+                    ix = self.int_ins(a) + [("load", 200 + r.randint(0, 9)), ("+",)]      # never stored: 0
+                elif shape == "load+c":
+                    ix = [("load", 200 + r.randint(0, 9))] + self.int_ins(a) + [("+",)]
+                elif shape == "c+field":
+                    ix = self.int_ins(a) + [("txn", "NumAppArgs"), ("+",)]
+                elif shape == "field+c":
+                    ix = [("txn", "NumAppArgs")] + self.int_ins(a) + [("+",)]
+                else:
+                    ix = [("global", "GroupSize")] + self.int_ins(1 + a) + [("-",)]
+                return ix + [("gtxns", field)], ("opaque",)
             if style == "gtxn":
                 i = r.choice([0, 0, 1, 1, 2, 3, 15])
                 self.features.add("gtxn")
@@ -129,7 +158,7 @@ class Gen:
             else:
                 c = self.int_ins(r.choice(FEE_CONSTS))
         elif key == "Addr":
-            f = r.choice(ADDR_FIELDS)
+            f = self.focus_addr if (self.focus_addr and self.chance(0.65)) else r.choice(ADDR_FIELDS)
             rd, _ = self.read(f)
             op = r.choice(["==", "==", "!="])
             w = r.random()
@@ -175,6 +204,44 @@ class Gen:
             return c + rd + [(op,)]
         return rd + c + [(op,)]
 
+    def setcond(self, key):
+        """One governed field compared with two or three distinct constants, joined by `||` (membership in a set) or,
+        negated, by `&&` (exclusion of a set)."""
+        r = self.r
+        n = r.choice([2, 2, 3])
+        if key == "Addr":
+            f = self.focus_addr or r.choice(ADDR_FIELDS)
+            pool = [("addr", a) for a in ["A1", "A2", "A3", "A4", "A5"]] + [("global", "ZeroAddress")]
+            consts = r.sample(pool, n)
+            for c in consts:
+                if c[0] == "addr" and c[1] not in self.lit_addrs:
+                    self.lit_addrs.append(c[1])
+            consts = [[c] for c in consts]
+            rdf = lambda: self.read(f)[0]
+        elif key == "Type":
+            consts = [self.int_ins(t if self.chance(0.6) else TYPE_WORDS.index(t) + 1) for t in r.sample(TYPE_WORDS, n)]
+            rdf = lambda: self.read("TypeEnum")[0]
+        elif key == "OC":
+            consts = [self.int_ins(t if self.chance(0.6) else OC_WORDS.index(t)) for t in r.sample(OC_WORDS, n)]
+            rdf = lambda: self.read("OnCompletion")[0]
+        elif key == "GroupSize":
+            consts = [self.int_ins(v) for v in r.sample([1, 2, 3, 4, 8, 16], n)]
+            rdf = lambda: [("global", "GroupSize")]
+        elif key == "GroupIndex":
+            consts = [self.int_ins(v) for v in r.sample([0, 1, 2, 3, 15], n)]
+            rdf = lambda: [("txn", "GroupIndex")]
+        else:
+            return self.cmp(key)
+        self.features.add("set_condition")
+        neg = self.chance(0.3)
+        out = []
+        for i, c in enumerate(consts):
+            one = (c + rdf()) if self.chance(self.p["p_cf"]) else (rdf() + c)
+            out += one + [("!=",) if neg else ("==",)]
+            if i:
+                out.append(("&&",) if neg else ("||",))
+        return out
+
     def opaque(self):
         r = self.r
         f = r.choice(OPAQUE_FIELDS)
@@ -186,6 +253,8 @@ class Gen:
         if depth >= 2 or w < 0.5:
             if self.chance(0.2):
                 c = self.opaque()
+            elif depth < 2 and self.chance(self.p.get("set_conditions", 0.1)):
+                c = self.setcond(key or r.choice(self.p["keys"]))
             else:
                 c = self.cmp(key)
         elif w < 0.7:
@@ -230,6 +299,8 @@ class Gen:
     def stmt(self, depth, in_sub):
         r = self.r
         kinds = ["check"] * 5 + ["pad", "gread"]
+        if self.p["gtxn"] > 0 and self.p.get("pinned_self", True):
+            kinds += ["pinned_self"]
         if depth < self.p["max_depth"] and self.seq_ifs < self.p["max_seq_ifs"]:
             kinds += ["if"] * 4
             if self.p["loops"]:
@@ -271,6 +342,25 @@ class Gen:
                 [("int", 0), ("gtxnas", i, "ApplicationArgs"), ("pop",)],
                 self.int_ins(i) + [("int", 0), ("gtxnsas", "ApplicationArgs"), ("pop",)],
             ])
+        if k == "pinned_self":
+            # the contract pins its own position and then validates ITS OWN fields through that group slot
+            self.features.add("pinned_self_gtxn")
+            i = r.choice([0, 0, 1, 2])
+            pin = [("txn", "GroupIndex")] + self.int_ins(i) + [("==",)]
+            if self.chance(self.p["p_cf"]):
+                pin = self.int_ins(i) + [("txn", "GroupIndex"), ("==",)]
+            keys = [k2 for k2 in self.p["keys"] if k2 in ("Addr", "Fee", "Type", "OC")] or ["Addr"]
+            self.force_abs = i
+            try:
+                body = []
+                for _ in range(r.randint(1, 2)):
+                    body += self.cmp(r.choice(keys)) + [("assert",)]
+            finally:
+                self.force_abs = None
+            if self.chance(0.7):
+                return pin + [("assert",)] + body
+            L = self.lab("PS")
+            return pin + [("bz", L)] + body + [("label", L)]
         if k == "carry":
             self.features.add("carry")
             s = self.nscratch
